@@ -82,18 +82,26 @@ func runC17(c *Check) {
 	nf := p.MustFunc(mgrM("NotifyNewTransactions"))
 	{
 		okSel := false
-		for _, b := range nf.Blocks {
-			for _, in := range b.Instrs {
-				switch x := in.(type) {
-				case *ssa.Select:
-					for _, st := range x.States {
-						t := TermOf(st.Chan, &Ctx{Fn: nf})
-						if st.Dir == types.SendOnly && t.Op == "field" && t.Name == notifyField && !x.Blocking {
-							okSel = true
-						}
+		// the send may sit in a small helper of the package (a generic "try to send")
+		gn := BuildECFG(p, nf, ownPkgOpts(rootPath+"/block", 1))
+		for _, nd := range gn.Nodes {
+			if !gn.Live()[nd] || nd.Kind != NInstr {
+				continue
+			}
+			switch x := nd.In.(type) {
+			case *ssa.Select:
+				for _, st := range x.States {
+					t := TermOf(st.Chan, nd.Ctx)
+					if st.Dir == types.SendOnly && t != nil && t.Op == "field" && t.Name == notifyField && !x.Blocking {
+						okSel = true
 					}
-				case *ssa.Send:
-					okSel = false
+				}
+			}
+		}
+		for _, nd := range gn.Nodes {
+			if sd, ok := nd.In.(*ssa.Send); ok && gn.Live()[nd] && nd.Kind == NInstr {
+				if t := TermOf(sd.Chan, nd.Ctx); t != nil && t.Op == "field" && t.Name == notifyField {
+					okSel = false // a plain (blocking) send on the notification channel
 				}
 			}
 		}
@@ -140,6 +148,13 @@ func runC17(c *Check) {
 			timers, notify := 0, false
 			// the loop body may sit in a closure of the loop function
 			bodies := append([]*ssa.Function{callee}, callee.AnonFuncs...)
+			// the wait may sit in a helper of the package that the loop calls ("wait for the next
+			// wake-up and say which it was")
+			for _, h := range staticCalleesOf(p, callee) {
+				if pk := fnPkg(h); pk != nil && pk.Pkg.Path() == rootPath+"/block" && h.Blocks != nil && h != callee && !strings.Contains(fnName(h), "publishBlock") && !strings.Contains(fnName(h), "produceBlock") {
+					bodies = append(bodies, h)
+				}
+			}
 			for _, body := range bodies {
 				for _, cb := range body.Blocks {
 					for _, ci := range cb.Instrs {
@@ -187,7 +202,21 @@ func runC17(c *Check) {
 		fn := fnName(lazy)
 		sel := g.Select(func(n *Node) bool {
 			s, ok := n.In.(*ssa.Select)
-			return ok && s.Blocking && (n.Ctx.Depth == 0 || (n.Ctx.Depth == 1 && n.Ctx.Fn.Parent() == g.Root))
+			if !ok || !s.Blocking {
+				return false
+			}
+			if n.Ctx.Depth == 0 || (n.Ctx.Depth == 1 && n.Ctx.Fn.Parent() == g.Root) {
+				return true
+			}
+			// the wait in a helper the loop calls directly: a select on the notification channel
+			if n.Ctx.Depth == 1 {
+				for _, st := range s.States {
+					if t := TermOf(st.Chan, n.Ctx); t != nil && t.Op == "field" && t.Name == notifyField {
+						return true
+					}
+				}
+			}
+			return false
 		})
 		flagStore := func(val string) NodePred {
 			return func(n *Node) bool {
